@@ -6,7 +6,7 @@ Driver for C17 (stateful, one session at a time).  Resources are natural numbers
 
 requests
   {"op":"init","queue":[r..],"pop":n,"workers":n,"pre":bool}    pre = the pinned tree's model (witness replay)
-  {"op":"submit","n":k} | {"op":"take","j":i} | {"op":"start","j":i} | {"op":"end","j":i} | {"op":"release","j":i}
+  {"op":"submit","n":k} | {"op":"take","j":i} | {"op":"start","j":i} | {"op":"end","j":i} | {"op":"release","j":i} | {"op":"cancel","j":i}
 reply
   {"ok":true,"enabled":bool,"err":null|"indexError","queue":[..],"phase":..,"ds":[..]|null,"recv":[..]|null,
    "meta":[..]|null,"measure":n,"running":[job..]}
@@ -28,6 +28,7 @@ def phaseJson : Phase Nat → List (String × Json)
   | .running ds recv => [("phase", "running"), ("ds", ofNats ds), ("recv", optNats recv), ("meta", Json.null)]
   | .returning ds recv => [("phase", "returning"), ("ds", ofNats ds), ("recv", optNats recv), ("meta", Json.null)]
   | .finished recv md => [("phase", "finished"), ("ds", Json.null), ("recv", optNats recv), ("meta", ofNats md)]
+  | .cancelled => [("phase", "cancelled"), ("ds", Json.null), ("recv", Json.null), ("meta", Json.null)]
 
 def runningJobs (s : QState Nat) : List Nat :=
   (s.jobs.zipIdx.filter (fun (x, _) => isRunning x.phase)).map (·.2)
@@ -57,6 +58,7 @@ def handle (s : Option Sess) (j : Json) : Except String (Option Sess × Json) :=
       | "start" => do let i ← jNat (← field j "j"); pure (QStep.start i, some i)
       | "end" => do let i ← jNat (← field j "j"); pure (QStep.endRun i, some i)
       | "release" => do let i ← jNat (← field j "j"); pure (QStep.release i, some i)
+      | "cancel" => do let i ← jNat (← field j "j"); pure (QStep.cancel i, some i)
       | _ => throw s!"unknown op {op}"
     if se.pre then
       match stepPre se.st t with
